@@ -2,7 +2,10 @@ package udpswarm
 
 import (
 	"context"
+	"errors"
 	"net"
+	"os"
+	"time"
 
 	"go.brendoncarroll.net/p2p"
 )
@@ -27,6 +30,9 @@ It is included as a transport for secure swarms to be built on.
 */
 type Swarm struct {
 	conn *net.UDPConn
+	// recvSem is held by the one call of Receive that is reading from conn.
+	// The others wait for it in a select that also watches their context.
+	recvSem chan struct{}
 }
 
 func New(laddr string) (*Swarm, error) {
@@ -39,7 +45,8 @@ func New(laddr string) (*Swarm, error) {
 		return nil, err
 	}
 	s := &Swarm{
-		conn: conn,
+		conn:    conn,
+		recvSem: make(chan struct{}, 1),
 	}
 	return s, nil
 }
@@ -53,9 +60,20 @@ func (s *Swarm) Tell(ctx context.Context, a Addr, data p2p.IOVec) error {
 	return err
 }
 
+// receivePollInterval bounds how long Receive takes to notice that its context has ended.
+const receivePollInterval = 25 * time.Millisecond
+
 func (s *Swarm) Receive(ctx context.Context, th func(p2p.Message[Addr])) error {
+	// Reads from the socket are serialized anyway; waiting here instead of inside
+	// ReadFromUDP lets a waiting caller notice that its context has ended.
+	select {
+	case s.recvSem <- struct{}{}:
+	case <-ctx.Done():
+		return ctx.Err()
+	}
 	buf := [TheoreticalMTU]byte{}
-	n, remoteAddr, err := s.conn.ReadFromUDP(buf[:])
+	n, remoteAddr, err := s.readFrom(ctx, buf[:])
+	<-s.recvSem
 	if err != nil {
 		return err
 	}
@@ -65,6 +83,24 @@ func (s *Swarm) Receive(ctx context.Context, th func(p2p.Message[Addr])) error {
 		Payload: buf[:n],
 	})
 	return nil
+}
+
+// readFrom is ReadFromUDP, except that it returns ctx.Err() soon after ctx has ended.
+// A blocked ReadFromUDP cannot watch ctx, so it reads with a short deadline and checks
+// ctx between attempts.
+func (s *Swarm) readFrom(ctx context.Context, buf []byte) (int, *net.UDPAddr, error) {
+	for {
+		if err := ctx.Err(); err != nil {
+			return 0, nil, err
+		}
+		if err := s.conn.SetReadDeadline(time.Now().Add(receivePollInterval)); err != nil {
+			return 0, nil, err
+		}
+		n, remoteAddr, err := s.conn.ReadFromUDP(buf)
+		if err == nil || !errors.Is(err, os.ErrDeadlineExceeded) {
+			return n, remoteAddr, err
+		}
+	}
 }
 
 func (s *Swarm) LocalAddrs() []Addr {
